@@ -24,7 +24,10 @@ META = {
             "8-byte three-line file (absent for w, w+, x), merged "
             "on the complete state of BufferedFile + served file + server handle + reference file; each program is "
             "additionally closed and the final bytes compared.  Returned data, tell(), raise/no-raise, bytes after "
-            "flush/close are compared with a real local file running the same program.",
+            "flush/close are compared with a real local file running the same program.  Plus [server handle seam] "
+            "every sequence of <=3 (quick) / <=4 requests read(offset,len)/write(offset,data) over offsets "
+            "{0,3,6,11} x lengths {2,3} on the real default SFTPHandle (plain and O_APPEND, buffered and unbuffered "
+            "file object) compared with positional-I/O semantics on a bytes model.",
     "note": "SFTPFile.MAX_REQUEST_SIZE scaled to 8; close() is terminal; mutator return values (None) are not "
             "compared; 'x' is paramiko's documented O_EXCL flag (opened as 'wx' vs local 'x'); files are opened "
             "with 'b' on both sides; tell() is not compared in append mode (documented as possibly inaccurate) and "
@@ -417,6 +420,90 @@ def run_config(item, acc):
     SP.remove_scratch()
 
 
+# ----------------------------------------------------------------------------- server handle seam
+# The served side of a remote file is SFTPHandle.read(offset, length) / write(offset, data) over a Python file
+# object, with a cached cursor.  Every request sequence up to a depth over colliding offsets and lengths is run
+# on the real default SFTPHandle and compared with positional-I/O semantics on a plain bytes model (pread /
+# pwrite; O_APPEND: every write goes to the end).  This reaches offset coincidences (a request whose offset
+# equals the handle's *believed* position) at depth 3 that the client-driven search only meets at depth >= 5.
+H_OFFS = [0, 3, 6, 11]
+H_LENS = [2, 3]
+H_DATA = [b"UV", b"XYZ"]
+H_CONTENT = b"abcdefghijklmnop"
+
+
+def handle_ops():
+    return ([("read", o, n) for o in H_OFFS for n in H_LENS] + [("write", o, d) for o in H_OFFS for d in H_DATA])
+
+
+def run_handle(mode, seq, variant="buffered"):
+    """Returns None or (clause, detail)."""
+    from paramiko.sftp_handle import SFTPHandle
+    from paramiko.sftp import SFTP_OK
+    path = os.path.join(SP.scratch_root(), "c27-handle")
+    with open(path, "wb") as f:
+        f.write(H_CONTENT)
+    flags = os.O_RDWR | (os.O_APPEND if mode == "a+" else 0)
+    fobj = os.fdopen(os.open(path, flags), mode.replace("a+", "ab+").replace("r+", "rb+"),
+                     0 if variant == "unbuffered" else -1)
+    h = SFTPHandle(flags)
+    h.readfile = h.writefile = fobj
+    model = bytearray(H_CONTENT)
+    try:
+        for i, op in enumerate(seq):
+            if op[0] == "read":
+                got = h.read(op[1], op[2])
+                exp = bytes(model[op[1]:op[1] + op[2]])
+                if got != exp:
+                    return ("handle-read-returns-other-bytes-than-the-file-holds-at-that-offset",
+                            {"step": i, "op": list(map(core.jsonable, op)), "got": core.jsonable(got),
+                             "expected": core.jsonable(exp)})
+            else:
+                r = h.write(op[1], op[2])
+                if r != SFTP_OK:
+                    return ("handle-write-refused", {"step": i, "code": r})
+                off = len(model) if mode == "a+" else op[1]
+                if off > len(model):
+                    model.extend(b"\0" * (off - len(model)))
+                model[off:off + len(op[2])] = op[2]
+                with open(path, "rb") as chk:
+                    disk = chk.read()
+                if disk != bytes(model):
+                    return ("handle-write-lands-at-another-offset", {"step": i, "op": list(map(core.jsonable, op)),
+                                                                     "file": core.jsonable(disk),
+                                                                     "expected": core.jsonable(bytes(model))})
+        return None
+    finally:
+        try:
+            fobj.close()
+        finally:
+            os.unlink(path)
+
+
+def run_handle_item(item, acc):
+    tier, mode, variant, first, depth = item
+    ops = handle_ops()
+    import itertools
+    for k in range(0, depth):
+        for rest in itertools.product(ops, repeat=k):
+            seq = (first,) + rest
+            acc.ev()
+            acc.validated += 1
+            acc.transitions += 1
+            if len(seq) >= 2:
+                acc.nt(("handle", mode, variant, tuple((o[0], o[1], len(o[2]) if o[0] == "write" else o[2]) for o in seq)))
+            v = run_handle(mode, seq, variant)
+            if v is not None:
+                kinds = "+".join(sorted({o[0] for o in seq[:v[1]["step"] + 1]}))
+                acc.violation("%s:%s:after-%s" % (v[0], "append-mode" if mode == "a+" else "plain", kinds),
+                              {"mode": mode, "file_object": variant, "sequence": [list(map(core.jsonable, o)) for o in seq],
+                               **v[1]},
+                              {"handle": {"mode": mode, "variant": variant,
+                                          "sequence": [[o[0], o[1], o[2].decode() if o[0] == "write" else o[2]]
+                                                       for o in seq]}})
+    SP.remove_scratch()
+
+
 def main(tier):
     SP.scale(8)
     depth = 3 if tier == "quick" else 5
@@ -448,6 +535,12 @@ def main(tier):
     # heaviest (deepest, read/write) configurations first for load balance
     items.sort(key=lambda it: (-it[2], it[1][0] not in ("r+", "w+", "a+"), it[1][0]))
     ck.merge(core.pmap(items, run_config))
+    hdepth = 3 if tier == "quick" else 4
+    hitems = [(tier, mode, variant, op, hdepth) for mode in ("r+", "a+") for variant in ("buffered", "unbuffered")
+              for op in handle_ops()]
+    ck.merge(core.pmap(hitems, run_handle_item))
+    ck.extra["server_handle_seam"] = {"depth": hdepth, "offsets": H_OFFS, "lengths": H_LENS, "modes": ["r+", "a+"],
+                                      "file_objects": ["buffered", "unbuffered"], "operations": len(handle_ops())}
     ck.extra["bound"] = {"max_depth": depth, "alphabet": len(alphabet(tier)), "configs": len(items),
                          "configs_by_depth": {str(d): sum(1 for it in items if it[2] == d)
                                               for d in sorted({it[2] for it in items})}}
@@ -458,6 +551,12 @@ def main(tier):
 
 def replay(rec):
     SP.scale(8)
+    if "handle" in rec["replay"]:
+        h = rec["replay"]["handle"]
+        seq = tuple((o[0], o[1], o[2].encode() if o[0] == "write" else o[2]) for o in h["sequence"])
+        v = run_handle(h["mode"], seq, h["variant"])
+        print("sequence", seq, "->", v)
+        return 1 if v is not None else 0
     r = rec["replay"]
     cfg = (r["cfg"][0], r["cfg"][1], r["cfg"][2])
     program = unjprog(r["program"])
